@@ -7,6 +7,8 @@ import (
 	"fmt"
 	"runtime/debug"
 	"strings"
+	"sync"
+	"sync/atomic"
 
 	crypto "github.com/dappledger/AnnChain/gemmill/go-crypto"
 	"github.com/dappledger/AnnChain/gemmill/types"
@@ -609,9 +611,16 @@ func runStream(sc *streamCase, lc counters, tamper bool) {
 	if m.maj23 != nil || m.conflicts > 0 || m.exactHits > 0 {
 		run.Nontrivial(sc.ID)
 	}
-	if m.maj23 != nil && m.conflicts > 0 && len(sc.Ops) <= 14 {
+	if m.maj23 != nil && m.conflicts > 0 && len(sc.Ops) <= 14 && sampleSlot(sc.Origin) {
 		run.Sample(map[string]interface{}{"origin": sc.Origin, "powers_by_key": sc.Spec.Powers, "type": sc.T, "ops": opsCompact(sc.Ops), "majority": blockName(*m.maj23), "counted_power": d.cpowers(), "total": m.total})
 	}
+}
+
+var sampleCount sync.Map // origin -> *int32: at most two samples per origin
+
+func sampleSlot(origin string) bool {
+	v, _ := sampleCount.LoadOrStore(origin, new(int32))
+	return atomic.AddInt32(v.(*int32), 1) <= 2
 }
 
 func opsCompact(ops []opT) []string {
